@@ -2,6 +2,7 @@ package operators
 
 import (
 	"context"
+	"strings"
 
 	"github.com/MontFerret/ferret/pkg/runtime/core"
 	"github.com/MontFerret/ferret/pkg/runtime/values"
@@ -37,7 +38,8 @@ func NewLogicalOperator(
 	right core.Expression,
 	operator string,
 ) (*LogicalOperator, error) {
-	op, exists := logicalOperators[operator]
+	// keywords are case-insensitive: the token text keeps the spelling of the query (and, Or, NOT)
+	op, exists := logicalOperators[strings.ToUpper(operator)]
 
 	if !exists {
 		return nil, core.Error(core.ErrInvalidArgument, "operator")
